@@ -388,6 +388,8 @@ pub fn gen_tx(r: &mut Rng, focus: Focus) -> tir::Tx {
             if focus == Focus::C10 && r.chance(1, 2) {
                 v.push(if r.chance(1, 2) { one } else { E::Bytes(vec![7; 28]) });
                 if r.chance(1, 2) { v.push(E::Bytes(vec![9; 28])); }
+                // one key in two spellings: an address and its bare key hash
+                if r.chance(1, 2) { v.push(E::Address(addr_bytes(0xA1))); v.push(E::Bytes(vec![0xA1; 28])); }
             }
             Some(tir::Signers { signers: v })
         } else {
